@@ -964,7 +964,7 @@ fn judge_oracle(
                         } else {
                             "C13:score-path-dependent"
                         };
-                        v.oracle.push((key.into(), format!("call {i} score() at doc {before_doc} = {} but a fresh scorer advanced to that doc gives {}", &got[2..], &e[2..])));
+                        v.oracle.push((key.into(), format!("call {i} score() at doc {before_doc} = {} but the reference score of that doc is {} (direct trees: brute-force combination of the children's scores; queries: a fresh scorer advanced to it)", &got[2..], &e[2..])));
                         if key == "C13:score-path-dependent" {
                             return v;
                         }
